@@ -403,3 +403,363 @@ Proof.
     unfold free_members. cbn [m_owner m_scheme m_userInfo m_hostText m_ip4 m_ip6 m_ipFuture m_portText m_segs m_query m_fragment free_text fold_left].
     destruct (t_val (m_ipFuture m)); reflexivity.
 Qed.
+
+(* ================================================================ the parser (Model/ParseM.v) *)
+Definition pb_blocks (b : pblocks) : list nat := blk_list (pb_ip4 b) ++ blk_list (pb_ip6 b) ++ pb_nodes b.
+
+Lemma free_nodes_rel nodes : forall s, wf s -> (forall x, cnt nodes x <= L s x) ->
+  rel s (fold_left (fun st n => free_blk n st) nodes s) nodes.
+Proof.
+  induction nodes as [|n r IH]; intros s W H; cbn [fold_left].
+  - apply rel_refl; exact W.
+  - assert (R1 : rel s (free_blk n s) [n]).
+    { apply rel_free; [exact W|]. specialize (H n). rewrite cnt_cons, cnt_self in H. lia. }
+    change (n :: r) with ([n] ++ r). eapply rel_trans; [exact R1|]. drel R1 W1 E1 Q1 N1 H1.
+    apply IH; [exact W1|]. intros x. specialize (H x). rewrite cnt_cons in H. specialize (H1 x). lia.
+Qed.
+
+Lemma free_partial_rel b s : wf s -> (forall x, cnt (pb_blocks b) x <= L s x) ->
+  rel s (free_partial b s) (pb_blocks b).
+Proof.
+  intros W H. unfold free_partial, pb_blocks in *.
+  assert (R1 : rel s (free_opt (pb_ip4 b) s) (blk_list (pb_ip4 b))) by (apply rel_free_opt; [exact W|pwl]).
+  eapply rel_trans; [exact R1|]. drel R1 W1 E1 Q1 N1 H1.
+  assert (R2 : rel (free_opt (pb_ip4 b) s) (free_opt (pb_ip6 b) (free_opt (pb_ip4 b) s)) (blk_list (pb_ip6 b)))
+    by (apply rel_free_opt; [exact W1|pwl]).
+  eapply rel_trans; [exact R2|]. drel R2 W2 E2 Q2 N2 H2.
+  apply free_nodes_rel; [exact W2|pwl].
+Qed.
+
+(* which host blocks the URI under construction holds, as a function of the control state *)
+Inductive phase := P0 | P1 | P2.
+(* P0: no address block yet; P1: inside an IPv6 literal, its block allocated, ip6 not yet set;
+   P2: the address fields of the URI and the blocks agree *)
+Definition phase_of (c : ctrl) : phase :=
+  match c with
+  | CV6 _ _ _ _ _ | CV6Colon _ _ | CV6CC _ => P1
+  | CAuth2 | CPort | CPathStart | CSeg _ | CTail | CTail2 | CQF _ => P2
+  | CPct1 r | CPct2 r => match r with RSeg _ | RQF _ => P2 | _ => P0 end
+  | _ => P0
+  end.
+
+Definition aeff (a : action) (p : phase) : option phase :=
+  match a with
+  | AHostReg | AHostPort => match p with P0 => Some P2 | _ => None end
+  | AAllocIp6 => match p with P0 => Some P1 | _ => None end
+  | AHostIp6 => match p with P1 => Some P2 | _ => None end
+  | _ => Some p
+  end.
+
+Fixpoint acts_eff (acts : list action) (p : phase) : option phase :=
+  match acts with
+  | [] => Some p
+  | a :: r => match aeff a p with Some p' => acts_eff r p' | None => None end
+  end.
+
+Definition pleb (p q : phase) : bool :=
+  match p, q with P0, P0 | P1, P1 | P2, P2 | P0, P2 => true | _, _ => false end.
+
+Definition tr_ok (p : phase) (t : tr) : bool :=
+  match acts_eff (fst t) p with
+  | Some p' => match snd t with Go c' => pleb p' (phase_of c') | Stop _ => true end
+  | None => false
+  end.
+
+Lemma tr_ok_pre p acts t : tr_ok p (pre acts t) = match acts_eff acts p with Some p' => tr_ok p' t | None => false end.
+Proof.
+  unfold tr_ok, pre. cbn [fst snd]. revert p. induction acts as [|a r IH]; intros p; cbn [acts_eff app]; [reflexivity|].
+  destruct (aeff a p); [apply IH|reflexivity].
+Qed.
+
+Ltac ifs := repeat match goal with |- context [if ?b then _ else _] => destruct b end.
+
+Lemma ptrans_ok c a : tr_ok (phase_of c) (ptrans c a) = true.
+Proof.
+  destruct c; try (destruct r); try (destruct k); destruct a; cbn [ptrans phase_of];
+  unfold t_start, t_schemeorseg, t_mustbeseg, t_hier, t_part2, t_auth, t_uh, t_uhnz, t_portuser, t_user, t_ownhost, t_host2,
+    t_auth2, t_port, t_iplit, t_futv, t_futhex, t_futloop1, t_futloop, t_v6, t_v6colon, t_v6cc, t_v6hex, t_v6ip4,
+    t_pathstart, t_seg, t_tail, t_tail2, t_qf, t_pct1, t_pct2;
+  cbn [a_alpha a_digit a_subdelim a_hexdig a_unreserved a_sub_unres a_pchar_np a_uh_start a_fut orb andb negb];
+  rewrite ?tr_ok_pre; cbn [acts_eff aeff]; ifs; rewrite ?tr_ok_pre; cbn [acts_eff aeff app seg_end path_exit seg_next];
+  try reflexivity; repeat match goal with |- context [match oct_over ?o with _ => _ end] => destruct (oct_over o) end; reflexivity.
+Qed.
+
+Definition fin_ok (p : phase) (f : list action * fin) : bool :=
+  match snd f with
+  | Acc => match acts_eff (fst f) p with Some P0 | Some P2 => true | _ => false end
+  | StopEnd => true
+  end.
+Lemma pfinish_ok c : fin_ok (phase_of c) (pfinish c) = true.
+Proof. destruct c; try (destruct r); try (destruct k); reflexivity. Qed.
+
+(* the data side: segments and nodes run in parallel; address fields and address blocks agree as
+   the phase says *)
+Definition dinv (p : phase) (d : pdata) (b : pblocks) : Prop :=
+  length (pathSegs (p_uri d)) = length (pb_nodes b) /\
+  match p with
+  | P0 => ip4 (p_uri d) = None /\ pb_ip4 b = None /\ ip6 (p_uri d) = None /\ pb_ip6 b = None
+  | P1 => ip4 (p_uri d) = None /\ pb_ip4 b = None /\ ip6 (p_uri d) = None /\ pb_ip6 b <> None
+  | P2 => is_some (ip4 (p_uri d)) = is_some (pb_ip4 b) /\ is_some (ip6 (p_uri d)) = is_some (pb_ip6 b)
+  end.
+
+Lemma dinv_weaken p q d b : pleb p q = true -> dinv p d b -> dinv q d b.
+Proof.
+  destruct p, q; cbn; intros E; try discriminate; auto.
+  intros (Hl & a & b' & c & e). split; [exact Hl|]. rewrite a, b', c, e. split; reflexivity.
+Qed.
+
+(* the state holds the blocks B on top of a frame F *)
+Definition over (s : mstate) (B : list nat) (F : nat -> nat) : Prop := forall x, L s x = cnt B x + F x.
+
+Lemma exec_m_spec ch d b a s p p' F : wf s -> dinv p d b -> aeff a p = Some p' -> over s (pb_blocks b) F ->
+  match exec_m ch d b a s with
+  | (Some (d', b'), s') => wf s' /\ ext s s' /\ dinv p' d' b' /\ over s' (pb_blocks b') F
+  | (None, s') => wf s' /\ ext s s' /\ over s' (pb_blocks b) F /\ fails_between s s'
+  end.
+Proof.
+  intros W (Dl & Dp) A O. unfold over in *.
+  assert (Triv : forall d', length (pathSegs (p_uri d')) = length (pathSegs (p_uri d)) ->
+                            ip4 (p_uri d') = ip4 (p_uri d) -> ip6 (p_uri d') = ip6 (p_uri d) -> p' = p ->
+                            wf s /\ ext s s /\ dinv p' d' b /\ (forall x, L s x = cnt (pb_blocks b) x + F x)).
+  { intros d' e1 e2 e3 ->. split; [exact W|]. split; [apply ext_refl|]. split; [|exact O].
+    split; [congruence|]. rewrite e2, e3. exact Dp. }
+  destruct a; cbn [exec_m];
+    try (cbn [aeff] in A; injection A as <-; apply Triv; reflexivity).
+  - (* APushSeg *)
+    cbn [aeff] in A; injection A as <-.
+    destruct (alloc true SEG_SIZE s) as [[id|] s'] eqn:EA.
+    + destruct (alloc_some _ _ _ _ _ W EA) as (W' & E' & HL & Hf & _).
+      split; [exact W'|]. split; [exact E'|]. split.
+      * split. { cbn. rewrite !app_length. cbn. lia. } exact Dp.
+      * unfold pb_blocks in *. cbn [pb_nodes pb_ip4 pb_ip6]. pwl.
+    + destruct (alloc_none _ _ _ _ W EA) as (W' & E' & HL & _).
+      split; [exact W'|]. split; [exact E'|]. split; [pwl|]. eapply alloc_none_fails; eauto.
+  - (* APushSaved *)
+    cbn [aeff] in A; injection A as <-.
+    destruct (alloc true SEG_SIZE s) as [[id|] s'] eqn:EA.
+    + destruct (alloc_some _ _ _ _ _ W EA) as (W' & E' & HL & Hf & _).
+      split; [exact W'|]. split; [exact E'|]. split.
+      * split. { cbn. rewrite !app_length. cbn. lia. } exact Dp.
+      * unfold pb_blocks in *. cbn [pb_nodes pb_ip4 pb_ip6]. pwl.
+    + destruct (alloc_none _ _ _ _ W EA) as (W' & E' & HL & _).
+      split; [exact W'|]. split; [exact E'|]. split; [pwl|]. eapply alloc_none_fails; eauto.
+  - (* AHostReg *)
+    cbn [aeff] in A. destruct p; try discriminate. injection A as <-. destruct Dp as (d4 & b4 & d6 & b6).
+    destruct (alloc false IP4_SIZE s) as [[id|] s'] eqn:EA.
+    + destruct (alloc_some _ _ _ _ _ W EA) as (W' & E' & HL & Hf & _).
+      destruct (ip4 (p_uri (exec ch d AHostReg))) eqn:E4.
+      * split; [exact W'|]. split; [exact E'|]. split.
+        { split; [exact Dl|]. cbn [pb_ip4 pb_ip6]. rewrite E4. split; [reflexivity|]. cbn. rewrite d6, b6. reflexivity. }
+        unfold pb_blocks in *. cbn [pb_nodes pb_ip4 pb_ip6]. rewrite b4 in O. cbn [blk_list] in *. pwl.
+      * assert (R : rel s' (free_blk id s') [id]).
+        { apply rel_free; [exact W'|]. rewrite HL, cnt_self. lia. }
+        drel R W2 E2 Q2 N2 H2.
+        split; [exact W2|]. split; [eapply ext_trans; eauto|]. split.
+        { split; [exact Dl|]. rewrite E4, b4. split; [reflexivity|]. cbn. rewrite d6, b6. reflexivity. }
+        pwl.
+    + destruct (alloc_none _ _ _ _ W EA) as (W' & E' & HL & _).
+      split; [exact W'|]. split; [exact E'|]. split; [pwl|]. eapply alloc_none_fails; eauto.
+  - (* AHostPort *)
+    cbn [aeff] in A. destruct p; try discriminate. injection A as <-. destruct Dp as (d4 & b4 & d6 & b6).
+    destruct (alloc false IP4_SIZE s) as [[id|] s'] eqn:EA.
+    + destruct (alloc_some _ _ _ _ _ W EA) as (W' & E' & HL & Hf & _).
+      destruct (ip4 (p_uri (exec ch d AHostPort))) eqn:E4.
+      * split; [exact W'|]. split; [exact E'|]. split.
+        { split; [exact Dl|]. cbn [pb_ip4 pb_ip6]. rewrite E4. split; [reflexivity|]. cbn. rewrite d6, b6. reflexivity. }
+        unfold pb_blocks in *. cbn [pb_nodes pb_ip4 pb_ip6]. rewrite b4 in O. cbn [blk_list] in *. pwl.
+      * assert (R : rel s' (free_blk id s') [id]).
+        { apply rel_free; [exact W'|]. rewrite HL, cnt_self. lia. }
+        drel R W2 E2 Q2 N2 H2.
+        split; [exact W2|]. split; [eapply ext_trans; eauto|]. split.
+        { split; [exact Dl|]. rewrite E4, b4. split; [reflexivity|]. cbn. rewrite d6, b6. reflexivity. }
+        pwl.
+    + destruct (alloc_none _ _ _ _ W EA) as (W' & E' & HL & _).
+      split; [exact W'|]. split; [exact E'|]. split; [pwl|]. eapply alloc_none_fails; eauto.
+  - (* AAllocIp6 *)
+    cbn [aeff] in A. destruct p; try discriminate. injection A as <-. destruct Dp as (d4 & b4 & d6 & b6).
+    destruct (alloc false IP6_SIZE s) as [[id|] s'] eqn:EA.
+    + destruct (alloc_some _ _ _ _ _ W EA) as (W' & E' & HL & Hf & _).
+      split; [exact W'|]. split; [exact E'|]. split.
+      { split; [exact Dl|]. cbn [pb_ip4 pb_ip6 exec]. repeat split; auto. discriminate. }
+      unfold pb_blocks in *. cbn [pb_nodes pb_ip4 pb_ip6]. rewrite b6 in O. cbn [blk_list] in *. pwl.
+    + destruct (alloc_none _ _ _ _ W EA) as (W' & E' & HL & _).
+      split; [exact W'|]. split; [exact E'|]. split; [pwl|]. eapply alloc_none_fails; eauto.
+  - (* AHostIp6 *)
+    cbn [aeff] in A. destruct p; try discriminate. injection A as <-. destruct Dp as (d4 & b4 & d6 & b6).
+    split; [exact W|]. split; [apply ext_refl|]. split; [|exact O].
+    split; [exact Dl|]. cbn. rewrite d4, b4. split; [reflexivity|]. destruct (pb_ip6 b); [reflexivity|contradiction].
+  - (* AFixEmptyTrail *)
+    cbn [aeff] in A; injection A as <-.
+    set (d' := exec ch d AFixEmptyTrail).
+    assert (Hd : (pathSegs (p_uri d) = [[]] /\ pathSegs (p_uri d') = [] /\ ip4 (p_uri d') = ip4 (p_uri d) /\ ip6 (p_uri d') = ip6 (p_uri d))
+                 \/ (pathSegs (p_uri d') = pathSegs (p_uri d) /\ ip4 (p_uri d') = ip4 (p_uri d) /\ ip6 (p_uri d') = ip6 (p_uri d))).
+    { subst d'. cbn [exec p_uri]. unfold fix_empty_trail. destruct (negb (is_host_set (p_uri d))); [|right; repeat split].
+      destruct (pathSegs (p_uri d)) as [|[|c1 s1] [|s2 r]] eqn:EP; try (right; repeat split; (reflexivity || exact EP)).
+      left. repeat split. }
+    destruct Hd as [(e1 & e2 & e3 & e4)|(e1 & e3 & e4)].
+    + rewrite e1, e2. rewrite e1 in Dl. destruct (pb_nodes b) as [|n [|n2 nr]] eqn:EN; cbn in Dl; try discriminate.
+      assert (R : rel s (free_blk n s) [n]).
+      { apply rel_free; [exact W|]. rewrite O. unfold pb_blocks. rewrite EN, !cnt_app, cnt_self. lia. }
+      drel R W2 E2 Q2 N2 H2.
+      split; [exact W2|]. split; [exact E2|]. split.
+      { split; [cbn [pb_nodes]; rewrite e2; reflexivity|]. cbn [pb_ip4 pb_ip6]. rewrite e3, e4. exact Dp. }
+      unfold pb_blocks in *. cbn [pb_nodes pb_ip4 pb_ip6]. rewrite EN in O. pwl.
+    + rewrite e1. assert (X : match pathSegs (p_uri d) with
+              | [] => (Some (d', b), s)
+              | _ :: _ => match pathSegs (p_uri d) with
+                  | [] => match pb_nodes b with
+                      | [] => (Some (d', b), s)
+                      | n :: _ => (Some (d', {| pb_nodes := []; pb_ip4 := pb_ip4 b; pb_ip6 := pb_ip6 b |}), free_blk n s)
+                      end
+                  | _ :: _ => (Some (d', b), s)
+                  end
+              end = (Some (d', b), s)) by (destruct (pathSegs (p_uri d)); reflexivity).
+      rewrite X. apply Triv; auto. congruence.
+Qed.
+
+Lemma exec_all_m_spec ch acts : forall d b s p p' F, wf s -> dinv p d b -> acts_eff acts p = Some p' -> over s (pb_blocks b) F ->
+  match exec_all_m ch d b acts s with
+  | (Some (d', b'), _, s') => wf s' /\ ext s s' /\ dinv p' d' b' /\ over s' (pb_blocks b') F
+  | (None, bh, s') => wf s' /\ ext s s' /\ over s' (pb_blocks bh) F /\ fails_between s s'
+  end.
+Proof.
+  induction acts as [|a r IH]; intros d b s p p' F W D A O; cbn [exec_all_m acts_eff] in *.
+  - injection A as <-. split; [exact W|]. split; [apply ext_refl|]. split; assumption.
+  - destruct (aeff a p) as [p1|] eqn:EA; [|discriminate].
+    pose proof (exec_m_spec ch d b a s p p1 F W D EA O) as H1.
+    destruct (exec_m ch d b a s) as [[[d1 b1]|] s1].
+    + destruct H1 as (W1 & E1 & D1 & O1).
+      specialize (IH d1 b1 s1 p1 p' F W1 D1 A O1).
+      destruct (exec_all_m ch d1 b1 r s1) as [[[[d2 b2]|] bh] s2].
+      * destruct IH as (W2 & E2 & D2 & O2). split; [exact W2|]. split; [eapply ext_trans; eauto|]. split; assumption.
+      * destruct IH as (W2 & E2 & O2 & Fl). split; [exact W2|]. split; [eapply ext_trans; eauto|]. split; [exact O2|].
+        eapply fails_right; eauto.
+    + exact H1.
+Qed.
+
+Lemma cnt_zip_segs texts : forall nodes x, length texts = length nodes -> cnt (seg_blocks (zip_segs texts nodes)) x = cnt nodes x.
+Proof.
+  induction texts as [|t r IH]; intros [|n nr] x Hl; cbn in Hl; try discriminate; [reflexivity|].
+  cbn [zip_segs]. rewrite seg_blocks_cons. cbn [sg_node sg_blk blk_list app]. rewrite cnt_cons, (cnt_cons n nr), IH by lia. reflexivity.
+Qed.
+
+Lemma muri_of_blocks p d b x : dinv p d b -> p <> P1 ->
+  cnt (muri_blocks (muri_of (p_uri d) b)) x = cnt (pb_blocks b) x.
+Proof.
+  intros (Dl & Dp) Hp. rewrite muri_blocks_eq. unfold muri_of, pb_blocks.
+  cbn [m_scheme m_userInfo m_hostText m_ip4 m_ip6 m_ipFuture m_portText m_segs m_query m_fragment t_blk blk_list app].
+  rewrite !cnt_app, cnt_zip_segs by exact Dl. rewrite !cnt_nil.
+  assert (H4 : is_some (ip4 (p_uri d)) = is_some (pb_ip4 b) /\ is_some (ip6 (p_uri d)) = is_some (pb_ip6 b)).
+  { destruct p; [|contradiction|exact Dp]. destruct Dp as (a & b' & c & e). rewrite a, b', c, e. split; reflexivity. }
+  destruct H4 as [H4 H6].
+  destruct (ip4 (p_uri d)), (pb_ip4 b); cbn in H4; try discriminate;
+  destruct (ip6 (p_uri d)), (pb_ip6 b); cbn in H6; try discriminate; cbn [ip_blk blk_list]; rewrite ?cnt_nil; lia.
+Qed.
+
+Lemma zip_segs_sfld texts : forall nodes, Forall (sfld false) (zip_segs texts nodes).
+Proof. induction texts as [|t r IH]; intros [|n nr]; cbn [zip_segs]; constructor; [reflexivity|apply IH]. Qed.
+
+Lemma muri_of_consistent u b : consistent (muri_of u b).
+Proof.
+  unfold consistent. cbn [m_owner muri_of].
+  split; cbn [m_scheme m_userInfo m_hostText m_ip4 m_ip6 m_ipFuture m_portText m_segs m_query m_fragment t_blk t_val muri_of];
+    try reflexivity; try (intros; discriminate).
+  - destruct (ipFuture u); repeat split; intros; discriminate.
+  - apply zip_segs_sfld.
+Qed.
+
+(* the invariant of the run: [pblocks] lists exactly what has been allocated and not yet released *)
+Lemma prun_m_spec t : forall c d b i s F, wf s -> dinv (phase_of c) d b -> over s (pb_blocks b) F ->
+  match prun_m c d b i t s with
+  | (MOk m, s') => wf s' /\ ext s s' /\ consistent m /\ m_owner m = false /\ over s' (muri_blocks m) F
+  | (MSyntax _, s') => wf s' /\ ext s s' /\ over s' [] F
+  | (MMalloc, s') => wf s' /\ ext s s' /\ over s' [] F /\ fails_between s s'
+  end.
+Proof.
+  assert (Fin : forall b s s0 F, wf s -> ext s0 s -> over s (pb_blocks b) F ->
+                wf (free_partial b s) /\ ext s0 (free_partial b s) /\ over (free_partial b s) [] F).
+  { intros b s s0 F W E O. assert (R : rel s (free_partial b s) (pb_blocks b)) by (apply free_partial_rel; [exact W|unfold over in O; pwl]).
+    drel R W2 E2 Q2 N2 H2. split; [exact W2|]. split; [eapply ext_trans; eauto|]. unfold over in *. pwl. }
+  induction t as [|ch r IH]; intros c d b i s F W D O; cbn [prun_m].
+  - pose proof (pfinish_ok c) as FO. unfold fin_ok in FO. destruct (pfinish c) as [acts [|]]; cbn [fst snd] in FO.
+    + destruct (acts_eff acts (phase_of c)) as [p'|] eqn:EA; [|discriminate].
+      pose proof (exec_all_m_spec 0%N acts d b s _ _ F W D EA O) as H1.
+      destruct (exec_all_m 0%N d b acts s) as [[[[d1 b1]|] bh] s1].
+      * destruct H1 as (W1 & E1 & D1 & O1). split; [exact W1|]. split; [exact E1|].
+        split; [apply muri_of_consistent|]. split; [reflexivity|].
+        intros x. rewrite (muri_of_blocks p' d1 b1 x D1) by (destruct p'; discriminate). apply O1.
+      * destruct H1 as (W1 & E1 & O1 & Fl). destruct (Fin bh s1 s F W1 E1 O1) as (a & b' & c').
+        split; [exact a|]. split; [exact b'|]. split; [exact c'|].
+        assert (R : rel s1 (free_partial bh s1) (pb_blocks bh)) by (apply free_partial_rel; [exact W1|unfold over in O1; pwl]).
+        apply (fails_left s s1 _ E1); [apply R|exact Fl].
+    + apply Fin; auto. apply ext_refl.
+  - pose proof (ptrans_ok c (atom_of ch)) as TO. unfold tr_ok in TO. destruct (ptrans c (atom_of ch)) as [acts nx]. cbn [fst snd] in TO.
+    destruct (acts_eff acts (phase_of c)) as [p'|] eqn:EA; [|discriminate].
+    pose proof (exec_all_m_spec ch acts d b s _ _ F W D EA O) as H1.
+    destruct (exec_all_m ch d b acts s) as [[[[d1 b1]|] bh] s1].
+    + destruct H1 as (W1 & E1 & D1 & O1). destruct nx as [c'|off].
+      * specialize (IH c' d1 b1 (S i) s1 F W1 (dinv_weaken _ _ _ _ TO D1) O1).
+        destruct (prun_m c' d1 b1 (S i) r s1) as [[m|pos|] s2].
+        -- destruct IH as (a & b' & IH). split; [exact a|]. split; [eapply ext_trans; eauto|]. exact IH.
+        -- destruct IH as (a & b' & IH). split; [exact a|]. split; [eapply ext_trans; eauto|]. exact IH.
+        -- destruct IH as (a & b' & IH & Fl). split; [exact a|]. split; [eapply ext_trans; eauto|]. split; [exact IH|].
+           eapply fails_right; eauto.
+      * apply Fin; auto.
+    + destruct H1 as (W1 & E1 & O1 & Fl). destruct (Fin bh s1 s F W1 E1 O1) as (a & b' & c').
+      split; [exact a|]. split; [exact b'|]. split; [exact c'|].
+      assert (R : rel s1 (free_partial bh s1) (pb_blocks bh)) by (apply free_partial_rel; [exact W1|unfold over in O1; pwl]).
+      apply (fails_left s s1 _ E1); [apply R|exact Fl].
+Qed.
+
+(* ---------------------------------------------------------------- public vocabulary *)
+Lemma over_perm s B s0 : (forall x, L s x = cnt B x + L s0 x) <-> Permutation (live_ids s) (B ++ live_ids s0).
+Proof.
+  rewrite cnt_Permutation. unfold L. split; intros H x; specialize (H x); rewrite cnt_app in *; exact H.
+Qed.
+
+Lemma holds_incl m s : wf s -> holds m s <-> (NoDup (muri_blocks m) /\ incl (muri_blocks m) (live_ids s)).
+Proof.
+  intros W. unfold holds. split.
+  - intros H. split.
+    + apply cnt_NoDup. intros x. specialize (H x). pose proof (proj1 W x). lia.
+    + intros x Hx. apply cnt_In in Hx. apply cnt_In. specialize (H x). unfold L in H. lia.
+  - intros [N I] x. pose proof (proj1 (cnt_NoDup _) N x) as H1.
+    destruct (Nat.eq_dec (cnt (muri_blocks m) x) 0) as [E|E]; [lia|].
+    assert (In x (muri_blocks m)) as Hin by (apply cnt_In; lia).
+    apply I in Hin. apply cnt_In in Hin. unfold L. lia.
+Qed.
+
+(* uriParseSingleUriExMm: for every text, every ledger state and every fault plan.
+   Success: the object is consistent (borrowed: it holds node and address blocks only), its blocks
+   are exactly what the ledger gained.  Syntax error or out-of-memory: the ledger holds the same
+   blocks as before the call (no residue), and out-of-memory is reported only if the plan failed a
+   request made during the call.  No release of a block that is not live ([ext]: bad_frees unchanged). *)
+Theorem parse_m_no_residue t s0 : wf s0 ->
+  match parse_m t s0 with
+  | (MOk m, s') => wf s' /\ ext s0 s' /\ owns m s' /\ m_owner m = false
+                   /\ Permutation (live_ids s') (muri_blocks m ++ live_ids s0)
+  | (MSyntax _, s') => wf s' /\ ext s0 s' /\ Permutation (live_ids s') (live_ids s0)
+  | (MMalloc, s') => wf s' /\ ext s0 s' /\ Permutation (live_ids s') (live_ids s0) /\ fails_between s0 s'
+  end.
+Proof.
+  intros W. unfold parse_m.
+  assert (D : dinv (phase_of CStart) pdata_init pb_init) by (cbn; repeat split).
+  assert (O : over s0 (pb_blocks pb_init) (L s0)) by (intros x; reflexivity).
+  pose proof (prun_m_spec t CStart pdata_init pb_init 0 s0 (L s0) W D O) as H.
+  destruct (prun_m CStart pdata_init pb_init 0 t s0) as [[m|pos|] s'].
+  - destruct H as (W' & E' & C & Ow & Ov). split; [exact W'|]. split; [exact E'|]. split.
+    { split; [exact C|]. intros x. rewrite (Ov x). lia. }
+    split; [exact Ow|]. apply over_perm. exact Ov.
+  - destruct H as (W' & E' & Ov). split; [exact W'|]. split; [exact E'|]. apply (over_perm s' [] s0). exact Ov.
+  - destruct H as (W' & E' & Ov & Fl). split; [exact W'|]. split; [exact E'|]. split; [|exact Fl].
+    apply (over_perm s' [] s0). exact Ov.
+Qed.
+
+Lemma no_fault_no_fail s s' : ms_plan s = NoFault -> ~ fails_between s s'.
+Proof. intros H (n & _ & Hf). rewrite H in Hf. discriminate. Qed.
+
+Corollary parse_m_nofault t s0 : wf s0 -> ms_plan s0 = NoFault -> fst (parse_m t s0) <> MMalloc.
+Proof.
+  intros W P E. pose proof (parse_m_no_residue t s0 W) as H. destruct (parse_m t s0) as [r s']. cbn in E. subst r.
+  destruct H as (_ & _ & _ & Fl). exact (no_fault_no_fail _ _ P Fl).
+Qed.
